@@ -34,6 +34,8 @@ from py_gql.schema import (
     ScalarType,
     Schema,
     String,
+    InterfaceType,
+    UnionType,
 )
 from py_gql.schema.scalars import default_scalar
 
@@ -164,6 +166,38 @@ class Built:
         if f.get("default") is not None:
             kw["default_value"] = f["default"][0]
         return cls(f["name"], (lambda f=f: self.ty(f["type"])), python_name=f["py"], **kw)
+
+
+class BuiltAbs:
+    """an interface `Thing` with field g(iface_args), concrete object types
+    (impls: [{"name", "args"}]) declaring g with their OWN argument
+    definitions, a union of them, and root fields returning objects of the
+    concrete types in a given order. Every resolver of g records
+    (index of the object, kwargs)."""
+
+    def __init__(self, sd, iface_args, impls):
+        self.base = b = Built(sd)
+        self.calls = []
+        self.order = []
+        iface = InterfaceType("Thing", [Field("g", Int, args=[b._mk(Argument, a) for a in iface_args])])
+        self.fields = {}
+        objs = []
+        for imp in impls:
+            def resolver(root, ctx, info, **kwargs):
+                self.calls.append((root["idx"], kwargs))
+                return 1
+            f = Field("g", Int, args=[b._mk(Argument, a) for a in imp["args"]], resolver=resolver)
+            self.fields[imp["name"]] = f
+            objs.append(ObjectType(imp["name"], [f], interfaces=[iface]))
+        union = UnionType("AnyThing", objs)
+
+        def things(root, ctx, info):
+            return [{"__typename__": n, "idx": i} for i, n in enumerate(self.order)]
+
+        query = ObjectType("Query", [Field("things", ListType(iface), resolver=things),
+                                     Field("items", ListType(union), resolver=things)])
+        self.schema = Schema(
+            query, types=[t for n, t in b.types.items() if n not in BUILTIN] + objs + [iface, union])
 
 
 def _hashable(v):
